@@ -12,6 +12,13 @@ if ! cmp -s lean/Gws/Generated/Facts.lean.tmp lean/Gws/Generated/Facts.lean; the
 else
   rm -f lean/Gws/Generated/Facts.lean.tmp
 fi
+(cd tools/gotrans && go build -o ../../.build/gotrans .)
+.build/gotrans -repo "${VERIF_REPO:-/repo}" -lean lean/Gws/Generated/Trans.lean.tmp
+if ! cmp -s lean/Gws/Generated/Trans.lean.tmp lean/Gws/Generated/Trans.lean; then
+  mv lean/Gws/Generated/Trans.lean.tmp lean/Gws/Generated/Trans.lean
+else
+  rm -f lean/Gws/Generated/Trans.lean.tmp
+fi
 (cd lean && lake build Gws gwsdriver)
 (cd harness && CGO_ENABLED=0 go build -tags verif -o ../.build/verifharness .)
 echo "setup ok"
